@@ -124,6 +124,7 @@ def run(ctx):
 
     ctx.guard("R03.6", "normal-forms", nf)
     ctx.guard("R03.6", "nf-simd", lambda: nf_common.nf_rule(ctx, "R03.6", "html_tokenizer_simd", floor=3))
+    ctx.guard("R03.3", "wrapper-gate", lambda: tr.wrapper_fast_path_gate(ctx, "R03.3", "html"))
     ctx.guard("R03.3", "raw-path-gate", lambda: ctx.floor("R03.3", "raw-path-sites", tr.raw_path_gate(ctx, "R03.3", "html"), 1))
     from .C09 import r09_6
     ctx.rule("R03.8", "the SIMD scan's newline tally covers exactly the bytes consumed (shared with R09.6): line numbers do not depend on chunk alignment")
